@@ -84,6 +84,31 @@ func SchCorpus() []SchCorpusCase {
 	add(ei(), 't', Str("Bb"), "int enum")
 	add(ms(), 't', M(E("b", Int(1)), E("a", Int(2))), "typed map (unsorted)")
 	add(SchList(true, kd()), 't', List(Null(), M(E("", Int(1)))), "nullable list of kinded unions")
+	// unions as elements of lists and maps (assembler reuse; the key+value path)
+	add(SchList(false, uk()), 't', List(M(E("", Int(1))), M(E("", Str("x"))), M(E("", Int(2)))), "list of keyed unions")
+	add(SchMapOf(false, uk()), 't', M(E("p", M(E("", Str("x")))), E("q", M(E("", Int(7)))), E("r", M(E("", Str("y"))))), "map of keyed unions")
+	add(SchList(false, kd()), 't', List(M(E("", Int(1))), M(E("", Str("x"))), M(E("", List(Int(1), Int(2))))), "list of kinded unions")
+	add(SchList(false, sp()), 't', List(M(E("", Str("a"))), M(E("", Str("b")))), "list of stringprefix unions")
+	// kinded unions over chosen subsets of kinds: list without map, map without list, both
+	{
+		kl := func() *SchTy { return SchUnion('d', SchM("", 'l', SchList(false, SchScalar('I'))), SchM("", 'i', SchScalar('I'))) }
+		kt := func() *SchTy { return SchUnion('d', SchM("", 'l', tu()), SchM("", 's', SchScalar('S'))) }
+		klo := func() *SchTy { return SchUnion('d', SchM("", 'l', SchList(true, SchScalar('S')))) }
+		km := func() *SchTy { return SchUnion('d', SchM("", 'm', SchMapOf(false, SchScalar('I'))), SchM("", 's', SchScalar('S'))) }
+		kmu := func() *SchTy { return SchUnion('d', SchM("", 'm', uk()), SchM("", 'b', SchScalar('B'))) }
+		klm := func() *SchTy {
+			return SchUnion('d', SchM("", 'l', SchList(false, SchScalar('I'))), SchM("", 'm', sm()), SchM("", 'y', SchScalar('Y')))
+		}
+		add(kl(), 't', M(E("", List(Int(1), Int(2), Int(3)))), "kinded {list,int}: list inhabitant")
+		add(kl(), 't', M(E("", Int(5))), "kinded {list,int}: int inhabitant")
+		add(kt(), 't', M(E("", M(E("a", Int(1)), E("b", Str("x"))))), "kinded {tuple struct,string}: tuple inhabitant")
+		add(klo(), 't', M(E("", List(Str("a"), Null()))), "kinded {list} only")
+		add(km(), 't', M(E("", M(E("k", Int(1)), E("j", Int(2))))), "kinded {map,string}: map inhabitant")
+		add(km(), 't', M(E("", Str("s"))), "kinded {map,string}: string inhabitant")
+		add(kmu(), 't', M(E("", M(E("", Int(3))))), "kinded {keyed union,bool}: union inhabitant")
+		add(klm(), 't', M(E("", List(Int(9)))), "kinded {list,map,bytes}: list inhabitant")
+		add(klm(), 't', M(E("", M(E("a", Int(1)), E("c", Null())))), "kinded {list,map,bytes}: map inhabitant")
+	}
 	add(SchMapOf(true, sp()), 't', M(E("k", M(E("", Str("v"))))), "nullable map of stringprefix unions")
 	add(i8(), 't', M(E("v", Int(100))), "int8-bound field in range")
 	add(SchList(false, tu()), 't', List(M(E("a", Int(1))), M(E("a", Int(2)), E("b", Str("x"))), M(E("a", Int(3)))), "list of tuple structs (assembler reuse)")
